@@ -67,6 +67,7 @@ let parse_op (t : string array) : op option =
   | "restore" | "frestore" -> Some (ORestore (reg 1, backend_of t.(2), t.(0) = "frestore", bytes_of_hex t.(3)))
   | "restorefrom" | "frestorefrom" -> Some (ORestoreFrom (reg 1, backend_of t.(2), t.(0) = "frestorefrom", reg 3))
   | "clone" -> Some (OClone (reg 1, reg 2))
+  | "clonefrom" -> Some (OCloneFrom (reg 1, reg 2))
   | "append" -> Some (OAppend (reg 1, bytes_of_hex t.(2)))
   | "write" -> Some (OWrite (reg 1, bytes_of_hex t.(2)))
   | "writeall" -> Some (OWriteAll (reg 1, bytes_of_hex t.(2)))
